@@ -551,7 +551,7 @@ func (f *collectNodesDSVisitor) EnterField(fieldRef int, itemIds []int, treeNode
 	// - ds config has a root node for the field
 	// - we have a root node with typename and the field is a __typename field
 	// we no longer add a typename field for the root query nodes, as it is now handled by the planning visitor
-	hasRootNode := f.dataSource.HasRootNode(info.typeName, info.fieldName) || (info.isTypeName && hasRootNodeWithTypename && !IsMutationOrQueryRootType(info.typeName))
+	hasRootNode := f.dataSource.HasRootNode(info.typeName, info.fieldName) || (info.isTypeName && hasRootNodeWithTypename && !isMutationOrQueryRootType(f.definition, info.typeName))
 
 	// hasChildNode is true when:
 	// - ds config has a child node for the field
@@ -648,6 +648,15 @@ const (
 
 func IsMutationOrQueryRootType(typeName string) bool {
 	return queryTypeName == typeName || mutationTypeName == typeName
+}
+
+// isMutationOrQueryRootType also knows the root operation types of a schema definition that does
+// not use the default names (schema { query: RootQuery }).
+func isMutationOrQueryRootType(definition *ast.Document, typeName string) bool {
+	if IsMutationOrQueryRootType(typeName) {
+		return true
+	}
+	return typeName != "" && (typeName == string(definition.Index.QueryTypeName) || typeName == string(definition.Index.MutationTypeName))
 }
 
 type fieldInfo struct {
